@@ -1978,9 +1978,19 @@ def _deepcopy(it, args, kwargs):
     raise Unsupported("deepcopy")
 
 
+class Partial:
+    """functools.partial(func, *args, **kwargs)"""
+    def __init__(self, func, args, kwargs):
+        self.func, self.args, self.kwargs = func, list(args), dict(kwargs)
+
+    def pyvc_call(self, it, args, kwargs):
+        return it.call(self.func, self.args + list(args), {**self.kwargs, **kwargs})
+
+
 def make_module(it, modname):
     if modname == "functools":
         return ModuleNS("functools", {"wraps": ModelFn("functools.wraps", _wraps),
+                                      "partial": ModelFn("functools.partial", lambda it_, a, k: Partial(a[0], a[1:], k)),
                                       "lru_cache": ModelFn("functools.lru_cache", lambda it_, a, k: ModelFn("lru_cache(..)", lambda i2, a2, k2: a2[0]))})
     if modname == "itertools":
         return ModuleNS("itertools", {"chain": ModelFn("itertools.chain", _chain)})
